@@ -409,7 +409,8 @@ def concretize(p, perm=0, style=None):
                 for j, d in enumerate(it["def"], 1):
                     if j > 1:
                         parts.append("; ")
-                    parts.append(("global " if d["g"] else "") + d["n"] + " ")
+                    ns = d.get("ns") or [d["n"]]
+                    parts.append(("global " if d["g"] else "") + (ns[0] if len(ns) == 1 else "(" + ", ".join(ns) + ")") + " ")
                     parts.append(ex((i, "def", j), d["e"]))
                 stm.append(("define", pre + "define", parts))
             if it["sw"]["x"] != "none":
